@@ -9,6 +9,7 @@ package classifier
 
 import (
 	"fmt"
+	"regexp"
 	"strings"
 	"testing"
 	"unicode"
@@ -34,6 +35,7 @@ type c05Case struct {
 var c05Kinds = []string{"upper", "lower", "altcase", "tabs", "multiblank", "trailing", "indent", "crlf", "blankline", "decorate", "dashes", "quotes"}
 var c05Decor = []string{"//", "// ", "#", "# ", "*", " * ", ";", ";; ", "--", "-- ", ">", "> ", "|", "| ", "%", "% ", "> > "}
 var c05Dashes = []string{"‒", "–", "—", "‐"}
+var c05DigitDot = regexp.MustCompile(`([0-9])\.(\s|$)`)
 
 func genXforms(t *rapid.T, kinds []string, maxN int) []xform {
 	n := lib.IntN(t, 1, maxN, "nxforms")
@@ -214,6 +216,8 @@ func applyXforms(ls []tline, ts []xform) ([]tline, map[string]int, int) {
 				ls[i].s = c05Decor[x.Arg%len(c05Decor)] + ls[i].s
 			case "dashes":
 				ls[i].s = strings.Replace(ls[i].s, "-", c05Dashes[x.Arg%len(c05Dashes)], -1)
+			case "dotdot": // C11 only: a number followed by a period gets a second one ("2.0." -> "2.0..")
+				ls[i].s = c05DigitDot.ReplaceAllString(ls[i].s, "${1}..${2}")
 			case "quotes":
 				s := ls[i].s
 				if x.Arg%2 == 0 {
